@@ -9,12 +9,17 @@
 // unchanged. Read-only operands of every container/scalar operation are snapshotted
 // before and compared after the call. interleave.go: callback interleaving of operations on
 // copy and source (state shared only DURING an operation); twocall.go: two-call histories of
-// the algorithm entry points sharing one caller-supplied InSitu object.
+// the algorithm entry points sharing one caller-supplied InSitu object. derived.go: derived
+// observations (vectorisation, transpose, sub-views, serialisation, iterators from a cell,
+// operand roles) of every (source, copy) pair; selfread.go: pure reads leave every object
+// state unchanged (snapshots through element reads only, zero-valued cells carrying
+// derivatives only).
 package main
 
 import (
 	"encoding/json"
 	"fmt"
+	"hash/fnv"
 	"os"
 	"runtime"
 	"strings"
@@ -31,6 +36,8 @@ type Case struct {
 	A     *ACase     `json:"algo,omitempty"`
 	X     *XCase     `json:"interleave,omitempty"`
 	T     *TCase     `json:"twocall,omitempty"`
+	S     *SCase     `json:"selfread,omitempty"`
+	Dv    *DCase     `json:"derived,omitempty"`
 	Key   string     `json:"key"`
 }
 
@@ -130,6 +137,11 @@ func enumDescs(thorough bool, emit func(Desc)) {
 			emit(Desc{Kind: "scalar", Sto: "-", Typ: t, Val: 3, Order: o})
 		}
 		emit(Desc{Kind: "scalar", Sto: "-", Typ: t, Val: 0})
+		if isReal(t) {
+			for dz := 1; dz <= 3; dz++ {
+				emit(Desc{Kind: "scalar", Sto: "-", Typ: t, Val: 0, Dz: dz})
+			}
+		}
 	}
 	for _, t := range constTypeNames {
 		emit(Desc{Kind: "scalar", Sto: "-", Typ: t, Val: 3})
@@ -150,6 +162,24 @@ func enumDescs(thorough bool, emit func(Desc)) {
 									continue
 								}
 								emit(Desc{Kind: "vector", Sto: sto, Typ: typ, N: n, Mask: mask, Order: o, Sl: []int{i, j}})
+							}
+						}
+					}
+					// zero-valued cells that carry derivative information only
+					if !isReal(typ) || mask == bits(n) {
+						continue
+					}
+					if !thorough && mask != 0 && mask != bits(n)&0b101 && mask != bits(n)&0b010 {
+						continue
+					}
+					for dz := 1; dz <= 3; dz++ {
+						emit(Desc{Kind: "vector", Sto: sto, Typ: typ, N: n, Mask: mask, Dz: dz})
+						for i := 0; i <= n; i++ {
+							for j := i + 1; j <= n; j++ {
+								if i == 0 && j == n && !thorough {
+									continue
+								}
+								emit(Desc{Kind: "vector", Sto: sto, Typ: typ, N: n, Mask: mask, Dz: dz, Sl: []int{i, j}})
 							}
 						}
 					}
@@ -180,6 +210,28 @@ func enumDescs(thorough bool, emit func(Desc)) {
 							continue // derivative content on nested views: thorough only
 						}
 						emit(Desc{Kind: "matrix", Sto: sto, Typ: typ, R: R, C: C, Mask: mo[0], Order: mo[1], Path: p})
+					}
+					// zero-valued cells that carry derivative information only
+					if isReal(typ) && (len(p) <= 1 || thorough) {
+						masks := []int{full & 0b011101, 0}
+						if !thorough {
+							// quick: one zero pattern; non-empty views only
+							masks = masks[:1]
+							if R*C == 1 {
+								masks = []int{0}
+							}
+							if len(p) == 1 && p[0].Op == "S" && (p[0].A[0] == p[0].A[1] || p[0].A[2] == p[0].A[3]) {
+								masks = nil
+							}
+						}
+						for _, mask := range masks {
+							if mask == full {
+								continue
+							}
+							for dz := 1; dz <= 3; dz++ {
+								emit(Desc{Kind: "matrix", Sto: sto, Typ: typ, R: R, C: C, Mask: mask, Dz: dz, Path: p})
+							}
+						}
 					}
 				}
 			}
@@ -236,7 +288,7 @@ func (r *runner) report(cs Case, rank int64, fails []failure, outcome string) {
 }
 
 func descRank(d Desc) int64 {
-	return int64(len(d.Path))*100000 + int64(d.N+d.R*d.C)*1000 + int64(d.Order)*100 + int64(len(d.Sl))*10
+	return int64(len(d.Path))*100000 + int64(d.N+d.R*d.C)*1000 + int64(d.Order)*100 + int64(len(d.Sl))*10 + int64(d.Dz)
 }
 
 func run(c *vf.Ctx) {
@@ -344,6 +396,59 @@ func run(c *vf.Ctx) {
 		appendProbe(r)
 	}
 
+	// ---- derived observations of every (source, copy) pair
+	defer cleanupDerived()
+	enumDescs(thorough, func(d Desc) {
+		if !want("derived") {
+			return
+		}
+		// (the cost of a state varies by orders of magnitude with its shape and the enumeration
+		// is periodic: spread the states over the shards by a hash of the descriptor)
+		h := fnv.New32a()
+		h.Write([]byte(d.Kind + d.String()))
+		if !c.Mine(int64(h.Sum32())) {
+			return
+		}
+		if w := build(d); w.err != "" {
+			return
+		}
+		var src [2]map[string]string
+		for _, ct := range ctors(d, thorough) {
+			k := 0
+			if ct.full {
+				k = 1
+			}
+			if src[k] == nil {
+				src[k] = derivedMap(d, ct.full)
+			}
+			cs := DCase{D: d, Ctor: ct.name}
+			c.Guard("derived|"+ct.name, descRank(d), cs)
+			fails, out := runDCase(cs, src[k])
+			r.report(Case{Kind: "derived", Dv: &cs}, descRank(d), fails, out)
+			if out == "equal" {
+				nontrivial++
+			}
+		}
+	})
+
+	// ---- pure reads of every object state
+	enumSCases(thorough, func(cs SCase) {
+		if !want("selfread") {
+			return
+		}
+		r.idx++
+		if !c.Mine(r.idx) {
+			return
+		}
+		c.Guard("selfread|"+cs.Read, descRank(cs.D), cs)
+		fails, out := runSCase(cs)
+		cc := cs
+		r.report(Case{Kind: "selfread", S: &cc}, descRank(cs.D), fails, out)
+		if out == "unchanged" {
+			nontrivial++
+		}
+	})
+
 	// ---- read-only operands
 	enumRCases(thorough, func(cs RCase) {
 		if !want("readonly") {
@@ -374,7 +479,7 @@ func run(c *vf.Ctx) {
 
 	// ---- iterator clones
 	enumDescs(false, func(d Desc) {
-		if d.Kind == "scalar" || d.Order > 0 || !want("iter") {
+		if d.Kind == "scalar" || d.Order > 0 || d.Dz > 0 || !want("iter") {
 			return
 		}
 		if d.Kind == "matrix" && (len(d.Path) > 1 || d.Mask != bits(d.R*d.C)) && !thorough {
@@ -490,9 +595,16 @@ func main() {
 			"(thorough: every ordered pair on every side combination for the deep-copy constructors); iterator clones at every position; read-only operand snapshots around every vector/matrix/scalar operation with owning/slice/transposed dense/sparse operands; " +
 			"callback interleaving: for (source, copy) pairs of vectors n<=3 / matrices 2x2 (owning, transposed, sliced; all 9 element types, both storage classes) x copy constructors with a mutable result (quick: Clone family and same-type As*, thorough: all) x receiver side x every operation O1 of {MdotM(w,w), MdotM(w,recv), MdotM(recv,w), MaddM, MmulM, MsubS, Set, Outer, Map, MapSet, Reduce | VaddV, VmulV, VsubS, MdotV, VdotM, Set, Map, MapSet, Reduce} whose container operands are counting ConstMatrix/ConstVector wrappers x every operation O2 of the mutation alphabet on the other side x EVERY call index k of the wrappers / callbacks: O2 is fired inside the k-th call; " +
 			"two-call histories sharing one InSitu object for qrAlgorithm, svd, eigensystem, cholesky, matrixInverse, determinant, hessenbergReduction, householder{Tri,Bi}diagonalization, backSubstitution, gramSchmidt, newton: every ordered pair of option sets x InSitu flag combination x buffers initially nil / caller-allocated x every ordered pair of different inputs of equal dimension x {Float64, Real64}; " +
-			"a case is non-trivial if the mutation changed its target (indep), the call returned (readonly/algo/twocall), the iterator had elements left (iter), or O2 was fired inside O1 and changed the other side (interleave)",
+			"content lattice of Real-typed objects includes zero-valued cells that carry derivatives only (value 0 with a gradient; value 0, zero gradient, Hessian non-zero on the diagonal only / off the diagonal only) in the independence, pure-read and read-only-operand parts, snapshots before an operation are taken through element reads only (no iterator walk); " +
+			"derived observations of every (object state, copy constructor) pair: AsVector/AsConstVector multiset, T, T.T, T.AsVector, every Slice/ConstSlice window (contents, transpose, vectorisation), rows/columns/diagonal, JSON and Export/Import round trips, String/Table, iterators started at every cell, joint iterators, clone of the copy, and the results of 10 operations with the object as operand, copy against source; " +
+			"pure reads (selfread): ~35 read operations (iterators from every cell, printing, JSON, Equals, const views, reductions, conversions, operand roles) on every object state must leave object and parent unchanged; " +
+			"algorithm inputs: every package under algorithm/ with a container input (22 entry points incl. msqrt, msqrtInv, gramSchmidt, hessenbergReduction, householder*, givensRotation, backSubstitution, blahut, saga x 5 variants, adam x 2); two-call histories additionally with 7 inadmissible first inputs (singular, indefinite, non-finite) for the direct methods; " +
+			"a case is non-trivial if the mutation changed its target (indep), the call returned (readonly/selfread/algo/twocall), at least one derived observation was comparable and all agreed (derived), the iterator had elements left (iter), or O2 was fired inside O1 and changed the other side (interleave)",
 		Assume: []string{
-			"observable state = public read API (dims, every element value/order/N/derivatives/Hessian, const-iterator sequence); explicit zero entries of sparse containers are not observable",
+			"observable state = public read API (dims, every element value/order/N/derivatives/Hessian, const-iterator sequence); explicit zero entries of sparse containers are not observable; an element with value 0 and no non-zero derivative is the same observable value whatever order/N it is allocated with (sparse containers may drop it)",
+			"AsVector/AsConstVector promise all elements in unspecified order: compared as multisets; derived observations a source itself cannot deliver (panic) and operations a const container type does not implement are not compared",
+			"gaussJordan and the Apply* helpers of householder/givensRotation work in their arguments by definition; lineSearch has no container input: not in the inputs-unchanged part",
+			"two-call histories: a second call on an admissible input that fails only because an earlier call with the same InSitu object failed or had an inadmissible input is a violation (the caller's buffers are work space); other loud-only-with/without-InSitu differences stay an outcome class",
 			"As-conversions to another element type promise values only; same-type As and the Clone family promise derivatives too",
 			"a view constructor or conversion that panics on a sliced/transposed source is counted (outcome ctor-panic-on-view), the addressing of views is C10's subject",
 			"AppendScalar/AppendVector on a dense slice writing into the parent's spare capacity is Go slice semantics on an alias the caller created: classified as an outcome, not a violation",
@@ -521,6 +633,10 @@ func main() {
 				fails, _ = runXCase(*cs.X)
 			case "twocall":
 				fails, _ = runTCase(*cs.T)
+			case "selfread":
+				fails, _ = runSCase(*cs.S)
+			case "derived":
+				fails, _ = runDCase(*cs.Dv, nil)
 			}
 			for _, f := range fails {
 				if f.key == cs.Key {
